@@ -210,6 +210,32 @@ pub fn run(ctx: &Ctx) -> (&'static str, &'static str) {
             els.push(a);
         }
     }
+    // elements whose intermediate value alpha = a^((q-1)/2) of the square-root algorithm lands on special points:
+    // alpha has norm +1 (a square) or -1 (a non-square); x -> x^((q-1)/2) is a bijection of the group of such
+    // elements (gcd((q-1)/2, 2(q+1)) = 1), so a = alpha^e with e = ((q-1)/2)^(-1) mod 2(q+1)
+    {
+        let two_q1 = (qq + 1u32) << 1;
+        let e_inv = modinv(&e_half, &two_q1).expect("(q-1)/2 invertible mod 2(q+1)");
+        let mut n_special = 0;
+        for c0 in [0u64, 1, 2, 3, 4, 5, 7] {
+            for neg in [false, true] {
+                let c0q = if neg { Q1::from_u64(c0).neg() } else { Q1::from_u64(c0) };
+                for norm in [Q1::one(), Q1::one().neg()] {
+                    // c1^2 = norm - c0^2
+                    if let Some(c1) = norm.sub(&c0q.sq()).sqrt() {
+                        for c1 in [c1.clone(), c1.neg()] {
+                            let alpha = Q2::new(vec![c0q.clone(), c1]);
+                            let a = alpha.pow(&e_inv);
+                            assert!(a.pow(&e_half) == alpha, "construction of a with prescribed a^((q-1)/2) failed");
+                            els.push(a);
+                            n_special += 1;
+                        }
+                    }
+                }
+            }
+        }
+        ctx.require(n_special >= 12, "too few elements with a special intermediate value");
+    }
     let mut seen = HashSet::new();
     els.retain(|x| seen.insert(x.clone()));
     let sub: Vec<Fq2> = els.iter().map(fq2_of).collect();
